@@ -72,22 +72,22 @@ theorem LiveOK_runOps (sc : Scripts) (f : Nat) (w : World) (me : Nat) (ops : Lis
 /-! ### get_user_command touches neither the table nor the sockets -/
 
 theorem scanStep_slots_net (w : World) :
-    (∀ w', scanStep w = .next w' → w'.slots = w.slots ∧ w'.net = w.net) ∧
-    (∀ w' u t, scanStep w = .found w' u t → w'.slots = w.slots ∧ w'.net = w.net) := by
+    (∀ w', scanStep w = .next w' → w'.slots = w.slots ∧ w'.net = w.net ∧ w'.naccepted = w.naccepted) ∧
+    (∀ w' u t, scanStep w = .found w' u t → w'.slots = w.slots ∧ w'.net = w.net ∧ w'.naccepted = w.naccepted) := by
   constructor
   · intro w' h
     unfold scanStep at h
     split at h
     · cases h
-    · cases h; exact ⟨rfl, rfl⟩
+    · cases h; exact ⟨rfl, rfl, rfl⟩
     · dsimp only at h
       split at h
       · split at h
         · split at h
           · cases h
-          · cases h; exact ⟨rfl, rfl⟩
-        · cases h; exact ⟨rfl, rfl⟩
-      · cases h; exact ⟨rfl, rfl⟩
+          · cases h; exact ⟨rfl, rfl, rfl⟩
+        · cases h; exact ⟨rfl, rfl, rfl⟩
+      · cases h; exact ⟨rfl, rfl, rfl⟩
   · intro w' u t h
     unfold scanStep at h
     split at h
@@ -97,26 +97,28 @@ theorem scanStep_slots_net (w : World) :
       split at h
       · split at h
         · split at h
-          · cases h; exact ⟨rfl, rfl⟩
+          · cases h; exact ⟨rfl, rfl, rfl⟩
           · cases h
         · cases h
       · cases h
 
-theorem scan_slots_net (n : Nat) (w : World) : (scan n w).1.slots = w.slots ∧ (scan n w).1.net = w.net := by
+theorem scan_slots_net (n : Nat) (w : World) :
+    (scan n w).1.slots = w.slots ∧ (scan n w).1.net = w.net ∧ (scan n w).1.naccepted = w.naccepted := by
   induction n generalizing w with
-  | zero => exact ⟨rfl, rfl⟩
+  | zero => exact ⟨rfl, rfl, rfl⟩
   | succ n ih =>
     obtain ⟨h1, h2⟩ := scanStep_slots_net w
     unfold scan
     cases hstep : scanStep w with
-    | crash => exact ⟨rfl, rfl⟩
+    | crash => exact ⟨rfl, rfl, rfl⟩
     | found w' u t => exact h2 w' u t hstep
     | next w' =>
-      obtain ⟨a1, a2⟩ := h1 w' hstep
-      obtain ⟨b1, b2⟩ := ih (decCursor w')
-      exact ⟨b1.trans a1, b2.trans a2⟩
+      obtain ⟨a1, a2, a3⟩ := h1 w' hstep
+      obtain ⟨b1, b2, b3⟩ := ih (decCursor w')
+      exact ⟨b1.trans a1, b2.trans a2, b3.trans a3⟩
 
-theorem guc_slots_net (w : World) : (getUserCommand w).1.slots = w.slots ∧ (getUserCommand w).1.net = w.net := by
+theorem guc_slots_net (w : World) : (getUserCommand w).1.slots = w.slots ∧ (getUserCommand w).1.net = w.net ∧
+    (getUserCommand w).1.naccepted = w.naccepted := by
   obtain ⟨s1, s2⟩ := scan_slots_net (NV.Gen.C12.scanLength w.slots.length) w
   unfold getUserCommand
   cases hsc : scan (NV.Gen.C12.scanLength w.slots.length) w with
@@ -128,7 +130,7 @@ theorem guc_slots_net (w : World) : (getUserCommand w).1.slots = w.slots ∧ (ge
 
 theorem LiveOK_puc (sc : Scripts) (w : World) (js : JState) (h : LiveOK js w) :
     LiveOK ((processUserCommand sc w).2.1.foldl judgeStep js) (processUserCommand sc w).1 := by
-  obtain ⟨g1, g2⟩ := guc_slots_net w
+  obtain ⟨g1, g2, _⟩ := guc_slots_net w
   unfold processUserCommand
   split
   · exact h
